@@ -34,3 +34,10 @@ Definition poly_eval (p : list Q) (x : Q) : Q := sum_n (fun i => vn p i * pw x i
 (* pairwise different rationals *)
 Fixpoint distinctQ (l : list Q) : Prop :=
   match l with [] => True | a :: t => Forall (fun r => ~ a == r) t /\ distinctQ t end.
+
+(* the columns (basis functions) are linearly independent on the observations of positive weight:
+   a combination sum_j delta_j term_j that vanishes at every such observation has all delta_j = 0 *)
+Definition indep_cols (n : nat) (cols : list (list Q)) (w : list Q) : Prop :=
+  forall delta : nat -> Q,
+    (forall i, (i < n)%nat -> 0 < vn w i -> sum_n (fun j => delta j * Xe cols j i) (length cols) == 0) ->
+    forall j, (j < length cols)%nat -> delta j == 0.
